@@ -1,5 +1,9 @@
 pub fn lcm(iter: impl Iterator<Item = usize>) -> usize {
-    iter.fold(1, |acc, x| acc * x / gcd(acc, x))
+    // Saturates instead of overflowing; a zero contributes nothing.
+    iter.fold(1, |acc, x| match gcd(acc, x) {
+        0 => acc,
+        g => (acc / g).saturating_mul(x),
+    })
 }
 
 pub fn gcd(mut a: usize, mut b: usize) -> usize {
